@@ -297,10 +297,53 @@ def inplace_overwrite(ctx, rng):
                         break
 
 
+def item_handover(ctx, rng):
+    """A basis set handed over for ONE order by item assignment (`obj.basis_set[2] = other`) to an object that already computed its
+    own: the next solve must use the handed-over basis, as a fresh object given the same basis through the setter does."""
+    from symfc import Symfc
+    from gens import atoms_of, base_cells, make_supercell
+
+    for cname, diag in [("tri2_P1", (2, 1, 1)), ("hcp", (1, 1, 1)), ("mono_P", (2, 1, 1))] + ([] if ctx.quick else [("tri1", (3, 1, 1)), ("wurtzite", (1, 1, 1))]):
+        sc = make_supercell(base_cells()[cname], diag, rng=rng, shuffle=True)
+        N = len(sc["numbers"])
+        at = atoms_of(sc)
+        from reference import min_image_distances
+        dist = min_image_distances(np.asarray(sc["lattice"], float), np.asarray(sc["positions"], float))
+        shells = sorted(set(np.round(dist[dist > 1e-8], 6).tolist()))
+        if len(shells) < 2:
+            continue
+        cut = (shells[0] + shells[1]) / 2
+        d, f = rng.normal(size=(3 * N + 6, N, 3)) * 0.05, rng.normal(size=(3 * N + 6, N, 3))
+        try:
+            A = Symfc(at, cutoff={2: cut}).compute_basis_set(orders=[2])
+            B = Symfc(at, displacements=d, forces=f).run(orders=[2], is_compact_fc=False)       # B owns a (no-cutoff) basis
+            if A.basis_set[2].basis_set.shape[1] in (0, B.basis_set[2].basis_set.shape[1]):
+                continue
+            B.basis_set[2] = A.basis_set[2]
+            B.solve(orders=[2], is_compact_fc=False)
+            F = Symfc(at, displacements=d, forces=f)
+            F.basis_set = {2: A.basis_set[2]}
+            F.solve(orders=[2], is_compact_fc=False)
+        except np.linalg.LinAlgError:
+            ctx.count("skipped-singular")
+            continue
+        ctx.case({"cell": sc["name"], "handover": "item assignment after own run", "cutoff": round(cut, 4)}, nontrivial=True)
+        ctx.count("item-handover")
+        got, exp = np.asarray(B.force_constants[2]), np.asarray(F.force_constants[2])
+        dev = float(np.abs(got - exp).max() / max(np.abs(exp).max(), 1e-300))
+        if dev > 1e-9:
+            ctx.fail("oracle", "C12/oracle/item-handover", f"{sc['name']}: after run(orders=[2]) and `obj.basis_set[2] = <basis with cutoff {cut:.4f}>` the next solve differs from a fresh object given that basis "
+                     f"(relative deviation {dev:.2e}): the solve depends on what the object computed before",
+                     replay={"cell": sc["name"], "lattice": sc["lattice"].tolist(), "positions": sc["positions"].tolist(), "numbers": [int(x) for x in sc["numbers"]], "cutoff": {"2": cut}, "disps": d.tolist(), "forces": f.tolist()}, has_input=True)
+
+
 def check(ctx):
     rng = np.random.default_rng(ctx.seed)
+    item_handover(ctx, np.random.default_rng(ctx.seed + 80))
     from basisobj import check_basis_objects
     check_basis_objects(ctx, "C12", np.random.default_rng(ctx.seed + 77))
+    from basisobj import check_handover_then_compute
+    check_handover_then_compute(ctx, "C12", np.random.default_rng(ctx.seed + 81))
     multi_object(ctx, rng)
     twin_supercells(ctx, np.random.default_rng(ctx.seed + 77))
     solver_reuse(ctx, np.random.default_rng(ctx.seed + 78))
